@@ -23,12 +23,12 @@ COMMON_NOTE = ("Trusted base: Kani 0.68 / CBMC 6.11 translation of the compiled 
 
 CLAIMS = {
     "C01": {
-        "text": "Writer half only, token kernels: for ALL names of 1-3 bytes (4 in the thorough tier), ALL literal strings of 1-2 bytes, ALL 2-byte hex strings and ALL i16 integers the bytes lopdf writes are decoded by an ISO 32000-1 (7.3.3-7.3.5) reference reader to exactly the original value; need_separator/need_end_separator agree with the first/last byte written for every 1-byte name; free/compressed xref-table entries are 20-byte 'f' entries (in-use entries for ALL u32 offsets x u16 generations in the thorough tier); the [1 4 2] cross-reference-stream row packing is inverted by the reader's own big-endian field decoder for ALL (u8,u32,u16).",
+        "text": "Writer half only, token kernels: for ALL names of 1-3 bytes (4 in the thorough tier), ALL literal strings of 1-2 bytes, ALL 2- and 4-byte hex strings and ALL i16 integers the bytes lopdf writes are decoded by an ISO 32000-1 (7.3.3-7.3.5) reference reader to exactly the original value; need_separator/need_end_separator agree with the first/last byte write_object emits for null, booleans, ALL i16 integers, references and every 1-byte name; free/compressed xref-table entries are 20-byte 'f' entries (in-use entries for ALL u32 offsets x u16 generations in the thorough tier); a subsection is 'first count' EOL + count x 20 bytes for ANY u16 first id; the binary-mark line is '%' + 4 bytes >= 128 + LF or an error; the [1 4 2] cross-reference-stream row packing is inverted by the reader's own big-endian field decoder for ALL (u8,u32,u16).",
         "design_ref": "DESIGN.md section 4 C01",
         "note": COMMON_NOTE + "NOT decided: Document::save_to/load_mem as a whole, nesting, separators between array/dictionary elements, reals, strings/names longer than 2 bytes, the reader (parser) side, both feature configurations. A regression there is not detected.",
     },
     "C03": {
-        "text": "Kernels of the strict-validity claim: the C01 token kernels (a strict reader's lexical level), 20-byte free entries, [1 4 2] row packing, and CountingWrite's byte accounting (what every xref offset is computed from) under every chunking / short-write / failing sink within the bound.",
+        "text": "Kernels of the strict-validity claim: the C01 token kernels (a strict reader's lexical level) incl. token separators, 20-byte entries, subsection header + count x 20 bytes, binary-mark line, [1 4 2] row packing, CountingWrite's byte accounting (what every xref offset is computed from) under every chunking / short-write / failing sink within the bound, and write_stream's exact framing ('stream' EOL, Length bytes, EOL 'endstream') under short writes.",
         "design_ref": "DESIGN.md section 4 C03",
         "note": COMMON_NOTE + "NOT decided: whole-file structure (header, startxref, subsection splitting in write_xref, Index/W/Length consistency in create_xref_steam, incremental save) - the harnesses for these did not reach a verdict inside the caps and are not part of the claim.",
     },
@@ -38,12 +38,12 @@ CLAIMS = {
         "note": COMMON_NOTE + "NOT decided: every entry point that goes through the nom parser (load_mem, Content::decode, CMap parsing, ObjectStream::new), decode_xref_stream, ToUnicode lookup, allocation-size and termination bounds. The property is therefore decided for a fraction of its entry points only.",
     },
     "C05": {
-        "text": "Primitive-level round trips: PKCS#5 pad/unpad for ALL 16-byte blocks and pad positions (and rejection of every malformed padding), RC4 encrypt/decrypt inverse and published keystream for key 'Key' on ALL 8-byte plaintexts, identity crypt filter.",
+        "text": "Primitive-level round trips: PKCS#5 pad/unpad for ALL 16-byte blocks and pad positions (and rejection of every malformed padding), RC4 encrypt/decrypt inverse and published keystream for key 'Key' on ALL 8-byte plaintexts, identity crypt filter; encrypt_object/decrypt_object leave ALL integer and reference objects untouched.",
         "design_ref": "DESIGN.md section 4 C05",
-        "note": COMMON_NOTE + "NOT decided: Document::encrypt/decrypt, encrypt_object/decrypt_object (object walking, Crypt overrides, Metadata/XRef exemptions), AES filters, password authentication, save/reload. The claim covers the RC4/PKCS#5/identity primitives only.",
+        "note": COMMON_NOTE + "NOT decided: Document::encrypt/decrypt, encrypt_object/decrypt_object on strings, streams and containers (object walking, Crypt overrides, Metadata/XRef exemptions: > 12 GB), AES filters (the aes crate triggers a kani-compiler internal error: intrinsics.rs:243), password authentication, save/reload. The claim covers the RC4/PKCS#5/identity primitives only.",
     },
     "C06": {
-        "text": "Agreement with the standard for the pieces that could be encoded: Algorithm 1 (per-object keys, RC4 40/128-bit and AESV2) - the exact byte string fed to MD5 and the truncation, for ALL file keys, object numbers and generations; Algorithm 2 for revision 2 (MD5 input layout: padded password, O, P little-endian, file id; single digest; 5-byte key) for ALL 5-byte passwords, O entries, permission words and file ids; Permissions::p_value vs Table 22 for ALL 2^64 bit patterns; RC4 vs the published test vector on ALL 8-byte plaintexts (two more keys vs an independent reference in the thorough tier); PKCS#5 padding for ALL blocks.",
+        "text": "Agreement with the standard for the pieces that could be encoded: Algorithm 1 (per-object keys, RC4 40/128-bit and AESV2) - the exact byte string fed to MD5 and the truncation, for ALL file keys, object numbers and generations; Algorithm 1.A (AESV3: 32-byte key used as is, no MD5); Algorithm 2 for revision 2 (MD5 input layout: padded password, O, P little-endian, file id; single digest; 5-byte key) for ALL 5-byte passwords, O entries, permission words and file ids; Permissions::p_value vs Table 22 for ALL 2^64 bit patterns; RC4 vs the published test vector on ALL 8-byte plaintexts (two more keys vs an independent reference in the thorough tier); PKCS#5 padding for ALL blocks.",
         "design_ref": "DESIGN.md section 4 C06",
         "note": COMMON_NOTE + "MD5 itself is replaced by a recording model (the message construction is what lopdf owns). NOT decided: Algorithm 2 for revisions 3-4 (the 50-round harnesses exceed the memory cap), Algorithms 2.A/2.B and 3-13, R5/R6, AES ciphertexts, interoperability on whole files.",
     },
@@ -58,7 +58,7 @@ CLAIMS = {
         "note": COMMON_NOTE + "NOT decided: Content::encode's own separator logic (its harness did not reach a verdict), Content::decode (nom), inline images. Shares its harnesses with C01.",
     },
     "C16": {
-        "text": "Text strings and tables: text_string() for EVERY one-character text up to U+07FF is either the single PDFDocEncoding byte - only when that byte decodes back to the same character, always for printable ASCII - or BOM + UTF-16BE; decode_text_string() returns the character for FE FF + EVERY non-surrogate unit, an astral character for EVERY surrogate pair, exactly one character for every PDFDocEncoding byte text_string() can emit, and the text without the mark for UTF-8-with-BOM strings (every U+0080..U+07FF); it returns a value or an error on ALL raw strings of 3-4 bytes; encode_utf16_be for EVERY scalar value; all five one-byte tables free of surrogate cells; printable-ASCII and Latin-1 portions agree with the Annex D rules.",
+        "text": "Text strings and tables: text_string() for EVERY one-character text up to U+07FF is either the single PDFDocEncoding byte - only when that byte decodes back to the same character, always for printable ASCII - or BOM + UTF-16BE; decode_text_string() returns the character for FE FF + EVERY non-surrogate unit, an astral character for EVERY surrogate pair, exactly one character for every PDFDocEncoding byte text_string() can emit, and the text without the mark for UTF-8-with-BOM strings (every U+0080..U+07FF); it returns a value or an error on ALL raw strings of 3-4 bytes; encode_utf16_be for EVERY scalar value and encode_utf8 for every U+0080..U+07FF; all five one-byte tables free of surrogate cells; printable-ASCII and Latin-1 portions agree with the Annex D rules.",
         "design_ref": "DESIGN.md section 4 C16",
         "note": COMMON_NOTE + "The round trip is decided as two halves on one-character strings (encode half and decode half on concrete-length byte strings), not on arbitrary strings. NOT decided: multi-character strings, re-encoding stability of the one-byte tables (string_to_bytes), text extraction, save/reload.",
     },
